@@ -283,6 +283,28 @@ fn tag_public<T: RcObject + std::fmt::Debug + PartialEq + 'static>(acc: &mut Acc
                 Some(up) if up.as_ref() == obj.as_ref() && up.tag() == want => {}
                 _ => acc.fail("weak-snapshot-upgrade", format!("{}: upgrade of a stamped, tagged WeakSnapshot failed or changed the tag", name)),
             }
+            // the links themselves and the weak pointer kinds format as the bare address too
+            // (their Debug output is the pointer), whatever stamp the link carries
+            let fmts = [
+                ("AtomicRc {:p}", format!("{:p}", cell)),
+                ("AtomicRc {:?}", format!("{:?}", cell)),
+                ("AtomicWeak {:p}", format!("{:p}", wcell)),
+                ("AtomicWeak {:?}", format!("{:?}", wcell)),
+                ("Weak {:?}", format!("{:?}", wcell.load(SeqCst, &g).counted())),
+                ("WeakSnapshot {:?}", format!("{:?}", ws)),
+            ];
+            for (what, got) in fmts.iter() {
+                if *got != base_fmt {
+                    acc.fail("format-sees-stamp-or-tag", format!("{}: {} of a pointer with stamp {} and tag {:#x} prints {}, the object is at {}", name, what, cv::word_stamp(cv::snapshot_word(&s)), want, got, base_fmt));
+                }
+            }
+            // Debug of the strong kinds shows the referent
+            let want_dbg = format!("RcObject({:?})", obj.as_ref().unwrap());
+            #[allow(clippy::clone_on_copy)]
+            let (s2, ws2) = (s.clone(), ws.clone());
+            if format!("{:?}", s) != want_dbg || format!("{:?}", rc) != want_dbg || !s2.ptr_eq(s) || !ws2.ptr_eq(ws) {
+                acc.fail("debug-or-clone", format!("{}: Debug of a stamped Snapshot/Rc is {:?} / {:?}, expected {}; or an explicit clone of a snapshot is another pointer", name, s, rc, want_dbg));
+            }
             // tagged / stamped null is null
             let n: Rc<T> = Rc::null().with_tag(tag);
             cell.store(n, SeqCst, &g);
@@ -290,12 +312,53 @@ fn tag_public<T: RcObject + std::fmt::Debug + PartialEq + 'static>(acc: &mut Acc
             if !ns.is_null() || ns.as_ref().is_some() || ns.tag() != want {
                 acc.fail("tagged-null", format!("{}: tagged null loaded as non-null or lost its tag", name));
             }
+            let mut nrc: Rc<T> = Rc::null().with_tag(tag);
+            let nwk = nrc.downgrade();
+            let null_checks = [
+                ("Snapshot::as_mut", unsafe { ns.as_mut() }.is_none()),
+                ("Rc::as_mut", unsafe { nrc.as_mut() }.is_none()),
+                ("Rc::downgrade", nwk.is_null()),
+                // (upgrading a null pointer yields the null pointer, not None: C05)
+                ("Weak::upgrade", nwk.upgrade().map(|r| r.is_null() && r.tag() == want) == Some(true)),
+                ("Weak::snapshot", nwk.snapshot(&g).is_null()),
+                ("Snapshot::downgrade", ns.downgrade().is_null()),
+                ("Snapshot::counted", ns.counted().is_null()),
+                ("Snapshot Debug", format!("{:?}", ns) == "Null"),
+                ("Rc Debug", format!("{:?}", nrc) == "Null"),
+                ("Snapshot Pointer", format!("{:p}", ns) == format!("{:p}", std::ptr::null::<T>())),
+            ];
+            let failed: Vec<&str> = null_checks.iter().filter(|c| !c.1).map(|c| c.0).collect();
+            let null_ok = failed.is_empty();
+            if !null_ok {
+                acc.fail("tagged-null", format!("{}: a null with tag {:#x} is not null (or does not print as null) through {:?}", name, tag, failed));
+            }
             drop(rc);
         }
         // next epoch
         {
             let g = circ::cs();
             g.flush();
+        }
+    }
+    {
+        // the Default of every pointer kind is the untagged null
+        let g = circ::cs();
+        let (dc, dwc): (AtomicRc<T>, AtomicWeak<T>) = (Default::default(), Default::default());
+        let (dr, ds, dws): (Rc<T>, circ::Snapshot<T>, circ::WeakSnapshot<T>) = (Default::default(), Default::default(), Default::default());
+        let ok = dc.load(SeqCst, &g).is_null()
+            && dc.load(SeqCst, &g).tag() == 0
+            && dwc.load(SeqCst, &g).is_null()
+            && dwc.load(SeqCst, &g).tag() == 0
+            && dr.is_null()
+            && dr.tag() == 0
+            && ds.is_null()
+            && ds.tag() == 0
+            && dws.is_null()
+            && dws.tag() == 0
+            && dws.upgrade().map(|s| s.is_null()) == Some(true);
+        acc.case(h2(0xdef, max_tag as u64));
+        if !ok {
+            acc.fail("default-not-null", format!("{}: the Default of a pointer kind is not the untagged null", name));
         }
     }
     if stamps_seen.len() < 8 {
